@@ -56,7 +56,12 @@ func startSink() {
 			rgs = append(rgs, strconv.Itoa(int(d.RatingGroup)))
 		}
 		sinkMu.Lock()
-		sinkGot = append(sinkGot, hexOf([]byte(r.URL.Path))+":"+strings.Join(rgs, "+"))
+		entry := hexOf([]byte(r.URL.Path)) + ":" + strings.Join(rgs, "+")
+		if n.NotificationType != models.ChfConvergedChargingNotificationType_REAUTHORIZATION {
+			// what is sent for a recharge is a re-authorisation notification (TS 32.291: notificationType is mandatory)
+			entry += ":!" + hexOf([]byte(n.NotificationType))
+		}
+		sinkGot = append(sinkGot, entry)
 		slow, reenter := sinkSlow, sinkReenter
 		sinkMu.Unlock()
 		// a consumer that takes its time to answer, or that sends a request of its own before it answers
